@@ -11,6 +11,8 @@ import (
 	"fmt"
 	"sort"
 	"time"
+
+	"github.com/google/uuid"
 )
 
 type scriptStep func(g *Gen, d *Dump, vnow int64) Action
@@ -375,16 +377,43 @@ var genScenarios = map[string]func(g *Gen) []scriptStep{
 	// twice into the dead-letter subscription, the second time while the first copy is still
 	// outstanding), or a subscription whose dead-letter topic is its own topic (the forward
 	// lands on the subscription that is dead-lettering): every forward creates its delivery (C06)
-	"dl-shared-target": func(g *Gen) []scriptStep {
-		if g.chance(0.35) {
-			return []scriptStep{
-				opStep(&Op{Kind: "CreateTopic", Name: sT0}),
-				subStep(&SubReq{Name: sS0, Topic: sT0, DL: dl(sT0, 1), Retry: retry(time.Second)}),
-				subStep(&SubReq{Name: sS1, Topic: sT0}),
-				pubStep(sT0, "", "k1"), pullStep(sS0, 10), pastLeases(sS0), pullStep(sS0, 10), pullStep(sS1, 10), pullStep(sS0, 10),
-				pastLeases(sS0), pullStep(sS0, 10),
+	// one Acknowledge / ModifyAckDeadline naming live, already acknowledged, foreign and unknown
+	// ack ids together: the live ones are settled, the others ignored, the answer is OK - and an
+	// error answer would have to leave everything as it was (C03, C09, C16)
+	"ack-mixed-stale": func(g *Gen) []scriptStep {
+		mixed := func(kind string) scriptStep {
+			return func(g *Gen, d *Dump, vnow int64) Action {
+				s0 := d.subByName(sS0)
+				ids := []string{uuid.New().String()}
+				for _, x := range d.Dels {
+					if x.Attempts > 0 && (s0 != nil && x.Sub == s0.ID || x.Completed == nil) {
+						ids = append(ids, x.ID.String())
+					}
+				}
+				g.r.Shuffle(len(ids), func(i, j int) { ids[i], ids[j] = ids[j], ids[i] })
+				if kind == "ModAck" {
+					return Action{Op: &Op{Kind: "ModAck", Name: sS0, AckIDs: ids, Seconds: 30}}
+				}
+				return Action{Op: &Op{Kind: "Ack", Name: sS0, AckIDs: ids}}
 			}
 		}
+		return []scriptStep{
+			opStep(&Op{Kind: "CreateTopic", Name: sT0}),
+			subStep(&SubReq{Name: sS0, Topic: sT0, Retry: retry(20 * time.Second)}), subStep(&SubReq{Name: sS1, Topic: sT0, Retry: retry(20 * time.Second)}),
+			pubStep(sT0, "", "", ""), pullStep(sS0, 10), pullStep(sS1, 1), ackLeased(sS0, "Ack", 0, true),
+			mixed("ModAck"), mixed("Ack"), pullStep(sS0, 10), pullStep(sS1, 10), pastLeases(sS1), pullStep(sS1, 10),
+		}
+	},
+	"dl-self-loop": func(g *Gen) []scriptStep {
+		return []scriptStep{
+			opStep(&Op{Kind: "CreateTopic", Name: sT0}),
+			subStep(&SubReq{Name: sS0, Topic: sT0, DL: dl(sT0, 1), Retry: retry(time.Second)}),
+			subStep(&SubReq{Name: sS1, Topic: sT0}),
+			pubStep(sT0, "", "k1"), pullStep(sS0, 10), pastLeases(sS0), pullStep(sS0, 10), pullStep(sS1, 10), pullStep(sS0, 10),
+			pastLeases(sS0), pullStep(sS0, 10),
+		}
+	},
+	"dl-shared-target": func(g *Gen) []scriptStep {
 		return []scriptStep{
 			opStep(&Op{Kind: "CreateTopic", Name: sT0}), opStep(&Op{Kind: "CreateTopic", Name: sT1}),
 			subStep(&SubReq{Name: sS0, Topic: sT0, DL: dl(sT1, 1), Retry: retry(time.Second)}),
@@ -756,7 +785,7 @@ var genScenarios = map[string]func(g *Gen) []scriptStep{
 	},
 }
 
-var scenarioNames = []string{"ordered-replay", "ordered-prune", "snapshot-sibling-acks", "retry-replaced", "dl-then-prune-messages", "prune-expired-minage", "nack-mixed-attempts", "nack-after-ack-dl", "dl-shared-target", "filter-literals", "ttl-raised", "prune-topics-batch-one", "dl-deleted-topic", "dl-ordered-target", "dl-filtered-target", "snapshot-bystander", "seek-revive-late", "idle-expired-live", "filter-replaced", "ordered-chain", "lease-changes"}
+var scenarioNames = []string{"ordered-replay", "ordered-prune", "snapshot-sibling-acks", "retry-replaced", "dl-then-prune-messages", "prune-expired-minage", "nack-mixed-attempts", "nack-after-ack-dl", "dl-shared-target", "dl-self-loop", "filter-literals", "ttl-raised", "prune-topics-batch-one", "dl-deleted-topic", "dl-ordered-target", "dl-filtered-target", "snapshot-bystander", "seek-revive-late", "idle-expired-live", "filter-replaced", "ordered-chain", "lease-changes", "ack-mixed-stale"}
 
 // scenariosFor lists the templates a generator profile may start with
 func scenariosFor(profile string) []string {
@@ -771,7 +800,7 @@ func scenariosFor(profile string) []string {
 		return []string{"filter-replaced", "idle-expired-live", "config-reset-each-field", "filter-literals", "ttl-raised", "seek-retention", "retry-replaced"}
 	case "c15":
 		// no reviving seeks in the paired histories
-		return []string{"ordered-prune", "dl-then-prune-messages", "prune-expired-minage", "prune-topics-batch-one", "dl-shared-target", "dl-deleted-topic", "dl-ordered-target", "dl-filtered-target", "idle-expired-live", "filter-replaced"}
+		return []string{"ordered-prune", "dl-then-prune-messages", "prune-expired-minage", "prune-topics-batch-one", "dl-shared-target", "dl-self-loop", "dl-deleted-topic", "dl-ordered-target", "dl-filtered-target", "idle-expired-live", "filter-replaced"}
 	}
 	return nil
 }
